@@ -24,6 +24,7 @@ LEVEL_NOTE = ('The exit bound is computed per run from the configured grace peri
 RULE = ('random configurations x trigger kinds x trigger instants; non-trivial = the trigger hit a running (started) operator with at least one daemon or in-flight handler, or a failing '
         'startup; distinct = hash of (configuration, trigger, rounded order of the life-cycle events)')
 ASSUMPTIONS = ['ultimate_exiting_timeout is off in simulations (it sends a real SIGKILL)', 'daemon personas are finite']
+SANITIZE_LOOP_ERRORS = True      # an exception inside an asyncio callback during the simulation is a violation here (runner.run_case_sanitized)
 GATES = {'runs': 200, 'startup_failures': 20, 'stops_during_startup': 15, 'stop_flag_runs': 20, 'cancel_runs': 20, 'fatal_watch_runs': 20, 'worker_failure_runs': 15, 'root_failure_runs': 15,
          'peering_failure_runs': 8, 'ns_removal_runs': 15, 'api_down_runs': 15, 'cleanup_order_checks': 100, 'daemons_stopped': 60, 'withdrawals': 12, 'first_request_checks': 150, 'bounded_exits': 200}
 
